@@ -192,8 +192,8 @@ const LINK_TARGETS: [&str; 16] = ["/outside", "../../outside", "/", "..", "/etc"
 /// that extraction really reaches the second entry)
 fn link_game(i: u64) -> Option<C12Case> {
     let target = LINK_TARGETS[(i % 16) as usize];
-    let follow = (i / 16) % 7;
-    let deep = (i / 16 / 7) % 2 == 1;
+    let follow = (i / 16) % 10;
+    let deep = (i / 16 / 10) % 2 == 1;
     let dir = if deep { "/opt/app/" } else { "/" };
     let mk = |dir: &str, base: &str, mode: u16, linkto: &str, content: &[u8]| ModelFile { dir: dir.into(), base: base.into(), mode, mtime: 1, flags: 0, user: "root".into(), group: "root".into(), linkto: linkto.into(), content: content.to_vec() };
     let link = mk(dir, "link", 0o120777, target, target.as_bytes());
@@ -205,13 +205,18 @@ fn link_game(i: u64) -> Option<C12Case> {
         3 => mk(&below, "sub", 0o040700, "", b""),
         4 => mk(dir, "link", 0o120777, "/outside/dir", b"/outside/dir"),
         5 => mk(&below, "keep.txt", 0o100600, "", b"overwrite a sentinel"),
-        _ => mk(&below, "inner", 0o120777, "/etc", b"/etc"),
+        6 => mk(&below, "inner", 0o120777, "/etc", b"/etc"),
+        // the '/' inside the base name: the directory below the link is NOT pre-created from
+        // the directory-name table, so the path really leads through the link
+        7 => mk(dir, "link/pwned", 0o100644, "", b"through the link, one level"),
+        8 => mk(dir, "link/dir/deep.txt", 0o100644, "", b"through the link, two levels"),
+        _ => mk(dir, "link/dir/inner.txt", 0o100644, "", b"overwrite a sentinel two levels below"),
     };
     let mut files = vec![mk(dir, "first", 0o100644, "", b"a regular file first"), link, second];
-    if i / 16 / 7 / 2 == 1 {
+    if i / 16 / 10 / 2 == 1 {
         files.push(mk(dir, "zlast", 0o100644, "", b"after the games"));
     }
-    if i >= 16 * 7 * 2 * 2 {
+    if i >= 16 * 10 * 2 * 2 {
         return None;
     }
     Some(C12Case::Hostile { files })
@@ -250,7 +255,7 @@ impl Property for C12 {
                         .boxed()
                 }),
             },
-            Phase::Enumerate { name: "link-games", total: 16 * 7 * 2 * 2, exhaustive: true, gen: Arc::new(link_game) },
+            Phase::Enumerate { name: "link-games", total: 16 * 10 * 2 * 2, exhaustive: true, gen: Arc::new(link_game) },
             Phase::Random { name: "hostile", cases: tier.pick(4_000, 80_000), strat: Arc::new(|| hostile_files().prop_map(|files| C12Case::Hostile { files }).boxed()) },
         ]
     }
